@@ -1544,7 +1544,8 @@ func buildFromStringProto(src protoreflect.FieldDescriptor, ext protoFieldExtens
 		keyField.Entity = ee
 	}
 
-	if stringItem.Format != nil {
+	if stringItem.Format != nil && keyField.Format == nil {
+		// the annotation, when it names a format, is the more specific source
 		switch *stringItem.Format {
 		case "uuid":
 			keyField.Format = &schema_j5pb.KeyFormat{
